@@ -120,6 +120,21 @@ def scope_cases():
             a = a[:4] + (('bin', 'and', a[4], inner),)
             out.append(('sibling quantifier reusing the name of a quantifier nested in the other', ('bin', 'and', a, q2('k'))))
             out.append(('sibling quantifier reusing the name of a quantifier nested in the other', ('bin', 'or', q2('k'), a)))
+    # nested quantifiers whose outer variable occurs only in the domain of an inner one (range bound, set member,
+    # array index, argument of a function), two and three levels deep
+    def R(lo, hi):
+        return ('range', lo, hi, False, False)
+
+    body = ('bin', '>', ('index', tf('xs'), V('j')), num(0))
+    doms_j = [R(num(0), V('i')), R(V('i'), num(5)), ('set', (V('i'), num(3))), R(num(0), ('call', 'abs', (V('i'),))), R(num(0), ('index', tf('xs'), V('i'))), R(('bin', '+', V('i'), num(1)), num(9))]
+    for q1 in ('exists', 'forall'):
+        for q2 in ('exists', 'forall'):
+            for dom_i in (R(num(0), num(3)), ('set', (num(1), num(2))), tf('xs')):
+                for dj in doms_j:
+                    out.append(('outer variable used only in the domain of a nested quantifier', ('quant', q1, 'i', dom_i, ('quant', q2, 'j', dj, body))))
+                    out.append(('outer variable used in the domain of a nested quantifier', ('quant', q1, 'i', dom_i, ('bin', 'and', ('quant', q2, 'j', dj, body), ('bin', '>', V('i'), tf('x'))))))
+                    out.append(('outer variable used only in the domain of a nested quantifier', ('bin', 'or', tf('p'), ('quant', q1, 'i', dom_i, ('un', 'not', ('quant', q2, 'j', dj, body))))))
+            out.append(('outer variable used only in the domain of a nested quantifier', ('quant', q1, 'i', R(num(0), num(3)), ('quant', q2, 'j', R(num(0), V('i')), ('quant', q1, 'k', R(V('j'), num(4)), ('bin', '>', ('index', tf('xs'), V('k')), num(0)))))))
     return out
 
 
